@@ -61,7 +61,7 @@ POSITIONS = {
 }
 # SQL words in lower / mixed case (the upper-case ones are atoms): alone, leading, trailing and between two words
 WORDS = ["and", "or", "not", "null", "in", "like", "is", "between", "select", "create", "default", "table", "check", "desc", "true"]
-PHRASES = [f(w) for w in WORDS for f in (lambda w: w, lambda w: w.capitalize(), lambda w: "a " + w + " b", lambda w: w + " a", lambda w: "A " + w.capitalize(),
+PHRASES = ["input.regex", "see input.regex"] + [f(w) for w in WORDS for f in (lambda w: w, lambda w: w.capitalize(), lambda w: "a " + w + " b", lambda w: w + " a", lambda w: "A " + w.capitalize(),
                                         lambda w: "a " + w.upper() + " b")]
 NUMS = [str(10 ** k) for k in range(0, 20)] + ["0", "7", "007", "0012", "1234", "99999", str(2 ** 31), str(2 ** 31 - 1), str(2 ** 63), str(2 ** 63 - 1),
                                               "12345678901234567890", "9" * 20, "1" * 19]
